@@ -1044,7 +1044,7 @@ Proof. unfold nv_draws. repeat constructor; lra. Qed.
 Theorem nonvacuous :
   exists out, hpe_offline RN nv_cfg nv_xs nv_draws = Ok out /\ hpe_domain nv_cfg nv_xs /\
     Forall (Forall (fun e => 0 <= e)) nv_draws /\ length out = 8%nat /\
-    nth 0 (nth 2 out []) false = true /\ nth 0 (nth 5 out []) false = true /\
+    nth 0 (nth 3 out []) false = true /\ nth 0 (nth 6 out []) false = true /\
     enc_refrac RN nv_cfg = IZR 2 * c_dt nv_cfg /\
     (forall t, nth 1 (nth t out []) false = false).
 Proof.
@@ -1056,13 +1056,14 @@ Proof.
   destruct (exp_offline_elem_spec _ _ _ _ _ _ _ Htr) as [_ [Hspec _]].
   simpl in Hspec. unfold enc_refrac in Hspec. simpl in Hspec.
   (* the element's parameters *)
-  assert (Er : refrac_steps RN (Some 2) 1 = 2) by (rewrite refrac_steps_eq; simpl; field).
-  assert (Es : scale_of RN (1000 * 1) 1 2 false = Some 1).
-  { unfold scale_of, period_steps; rn_simpl. destruct (Reqb'_spec (1000 * 1) 0); [lra|]. f_equal. field. }
+  change (Pos.to_nat 8) with 8%nat in Hspec.
+  replace (2 / 1) with 2 in Hspec by lra.
+  assert (Es : period_steps RN (1000 * 1) 1 = Some 1).
+  { unfold period_steps; rn_simpl. destruct (Reqb'_spec (1000 * 1) 0); [lra|]. f_equal. field. }
   assert (En : Z.to_nat (nbins RN 8 2) = 4%nat).
   { unfold nbins; rn_simpl. rewrite tmax_Rmax, Rmax_left by lra.
     replace (IZR (Z.of_nat 8) / 2) with (IZR 4) by (simpl; lra). rewrite Zfloor_IZR. reflexivity. }
-  rewrite Er, Es in Hspec. rewrite exp_indices_some in Hspec. unfold used in Hspec. rewrite En in Hspec.
+  rewrite Es in Hspec. rewrite exp_indices_some in Hspec. unfold used in Hspec. rewrite En in Hspec.
   simpl in Hspec.
   assert (C3 : clamp_index RN 8 (Some (1 * 1 + 2)) = 3%Z).
   { replace (1 * 1 + 2) with (IZR 3) by (simpl; lra).
@@ -1071,8 +1072,8 @@ Proof.
   { replace (1 * 1 + 2 + (1 * 1 + 2)) with (IZR 6) by (simpl; lra).
     destruct (clamp_index_lt 8 (IZR 6)) as [-> _]; [simpl; lra|simpl; lra|]. apply Zfloor_IZR. }
   split; [|split; [|split]].
+  - apply Hspec. split; [lia|]. left. exact C3.
   - apply Hspec. split; [lia|]. right. left. exact C6.
-  - apply Hspec. split; [lia|]. right. left. exact C6.
-  - simpl. lra.
+  - unfold enc_refrac, nv_cfg. simpl. lra.
   - intros t. eapply hpe_offline_zero_silent; eauto.
 Qed.
